@@ -1486,3 +1486,35 @@ def unsafe_position_of_another_name_after_reassignment(module: Node, other: Node
         end = len(name)
     name = other
     return name[:end]
+
+
+# ----------------------------------------------------------------------------- the characters of a name kept in a list
+
+
+def safe_character_list_cut_at_separators(module: Node) -> list[str]:
+    chars = list(module)
+    return ["".join(chars[:dot_position]) for dot_position, char in enumerate(chars) if char == "."]
+
+
+def safe_character_tuple_cut_at_separator_positions(module: Node) -> list[str]:
+    chars = tuple(module)
+    parents = []
+    for position in range(len(chars)):
+        if chars[position] == ".":
+            parents.append("".join(chars[:position]))
+    return parents
+
+
+def safe_character_list_positions_of_the_name_itself(module: Node) -> list[str]:
+    chars = [*module]
+    return ["".join(chars[:position]) for position, char in enumerate(module) if char == "."]
+
+
+def unsafe_character_list_cut_everywhere(module: Node) -> list[str]:
+    chars = list(module)
+    return ["".join(chars[:position]) for position, char in enumerate(chars) if position]
+
+
+def unsafe_character_list_cut_at_underscores_too(module: Node) -> list[str]:
+    chars = list(module)
+    return ["".join(chars[:position]) for position, char in enumerate(chars) if char in "._"]
